@@ -203,6 +203,21 @@ CLAIMS.update({
             DS9_NOTE, 'TLA+ reader state machine + TLC, spec->code replay through a concretiser, trace validation', 'DESIGN.md section 5 C10', 'ds9'),
 })
 
+CLAIMS.update({
+    'C11': ('model_checking',
+            'Crtf.tla: the CASA reader as a state machine over global/region/comment lines with a lexical layer (deg, rad, hms, hh:mm:ss, dd.mm.ss, '
+            'pix; lengths with units; ellipse [major, minor] semi-axes; box/centerbox/rotbox -> rectangle; inline overrides global; coord= selects '
+            'the frame; - excludes; ann marks annotations) and the writer (ToLine in the serialiser coordinate system, radunit, halved and swapped '
+            'ellipse axes, label quoting) composed with it; TLC checks the reader rules, Read(Write(L, opts)) = L and the fixed point. Reader '
+            'states are rendered to text and parsed by the real reader; writer states are replayed with an independent tokenizer and parsed '
+            'back; random lists (fmt .3f-.9f, radunit deg/arcmin/arcsec, own frame or another coordsys) go through two cycles with the half-unit '
+            'clause validated in TLC.',
+            'Transforms between different celestial frames are astropy\'s (positions compared on the sky). In the image coordinate system the '
+            'reader takes bare numeric values as pixels whatever their unit suffix and the writer emits pixel positions with a deg suffix; this is '
+            'modelled as the code does (see DESIGN.md). Metadata values are compared as text.',
+            'TLA+ reader/writer composition in TLC, spec->code replay through concretiser and tokenizer, trace validation', 'DESIGN.md section 5 C11', 'crtf'),
+})
+
 PENDING_REASON = ('specification module for this property is designed in DESIGN.md but its TLA+ module and '
                   'conformance binding are not built yet; not claimed until they are')
 
@@ -280,6 +295,8 @@ ENGINES.append({'name': 'artist', 'path': 'specs/Artist.tla specs/Geometry.tla v
                 'serves_properties': ['C18'], 'kind_free_text': 'patch outlines against exact membership; kwargs merge law'})
 ENGINES.append({'name': 'ds9', 'path': 'specs/Ds9.tla specs/MC_Ds9.tla specs/Ds9Write.tla specs/MC_Ds9Write.tla specs/Trace_Ds9.tla specs/Trace_Ds9Write.tla vf/ds9text.py vf/engines/c09.py c10.py',
                 'serves_properties': ['C09', 'C10'], 'kind_free_text': 'DS9 reader state machine and writer model, concretiser and tokenizer'})
+ENGINES.append({'name': 'crtf', 'path': 'specs/Crtf.tla specs/MC_Crtf.tla vf/crtftext.py vf/engines/c11.py',
+                'serves_properties': ['C11'], 'kind_free_text': 'CRTF reader/writer model with concretiser and tokenizer'})
 NA = {}
 
 
